@@ -26,6 +26,7 @@ type ProgCase struct {
 		Cyc1   int              `json:"cyc1"`
 		Cyc2   int              `json:"cyc2"`
 		Cyc3   int              `json:"cyc3"`
+		Cyc4   int              `json:"cyc4"` // spec/Mvp4 cycle-accurate model; -1 = not evaluated
 		Pcs    []int            `json:"pcs"`
 		Addrs  []int            `json:"addrs"`
 	} `json:"exp"`
@@ -106,7 +107,9 @@ type Diff struct {
 	Want int32
 }
 
-func (d Diff) String() string { return fmt.Sprintf("%s %s = %d, want %d", d.Kind, d.Loc, d.Got, d.Want) }
+func (d Diff) String() string {
+	return fmt.Sprintf("%s %s = %d, want %d", d.Kind, d.Loc, d.Got, d.Want)
+}
 
 // Obs is the observation of one case on one configuration.
 type Obs struct {
@@ -214,7 +217,7 @@ func (c *ProgCase) Replay(cfg Config, o Obs) map[string]any {
 		"program": strings.Split(strings.TrimSpace(c.Text()), "\n"), "prog": c.Prog,
 		"regs0": c.Regs0, "img": c.Img, "memSize": c.MemSize, "expected": exp,
 		"observed": map[string]any{"outcome": o.Res.Outcome(), "cycles": o.Res.Cycles, "regs": o.Res.Regs, "diffs": fmtDiffs(o.Diffs)},
-		"tags": c.Tags,
+		"tags":     c.Tags,
 	}
 }
 
